@@ -785,7 +785,7 @@ def _mk_cases(ctx):
 def _corpus():
     out = []
     d = os.path.join(vlib.VERIF, "corpus", "c13")
-    if os.path.isdir(d):
+    if os.path.isdir(d) and not os.environ.get("C13_NO_CORPUS"):  # (switch used only for mutation testing)
         for fn in sorted(os.listdir(d)):
             if fn.endswith(".json"):
                 for c in json.load(open(os.path.join(d, fn))):
